@@ -2,7 +2,7 @@
 From Coq Require Import NArith ZArith List Bool.
 From LoraV Require Import Base.Bytes Model.Frame Spec.L2Frame Gen.RegionTables Model.Region Model.Mac
   Proofs.FrameProofs Proofs.JoinProofs Proofs.OtaaProofs
-  Model.AsyncDev Model.NbDev Proofs.TxHistory Proofs.AsyncJoin Proofs.NbJoin.
+  Model.AsyncDev Model.NbDev Proofs.TxHistory Proofs.AsyncJoin Proofs.NbJoin Crypto.CMAC Proofs.FrontEndExamples.
 Import ListNotations.
 Local Open Scope nat_scope.
 
@@ -121,3 +121,9 @@ Proof. exact region_new_wf. Qed.
 Theorem C11_region_wf_preserved : forall g c g', region_wf g -> (match c with CflDyn fs => length fs = 5 | _ => True end) ->
   region_join_accept g c = Val g' -> region_wf g'.
 Proof. exact region_join_accept_wf. Qed.
+
+(* non-vacuity: a join request is built from a fresh device (concrete AES-128 / CMAC) and a frame that is not an authentic JoinAccept exists *)
+Example C11_join_premises_met :
+  (exists o, join_otaa aes_mac (mac_new 5%N 14%N 0%Z) ex_cred (9%N :: ex_draws) = Val o /\ m_state (to_mac o) = Otaa 9%N ex_cred) /\
+  spec_ja_accepts aes_enc aes_mac (firstn 256 (0x20%N :: repeat 7%N 16)) (cr_appkey ex_cred) = false.
+Proof. split; [exact ex_join_request_built|vm_compute; reflexivity]. Qed.
